@@ -209,6 +209,39 @@ func (in *Interp) intrinsic(fn *ssa.Function, args []Value) (Value, bool) {
 			}
 		}
 		return C(64, ^uint64(0)), true
+	case "strings.ToValidUTF8", "unicode/utf8.ValidString":
+		// symbolic UTF-8 validation, sequence by sequence (decodeRuneSym forks per encoding class):
+		// well-formed sequences are kept, every run of malformed bytes becomes one replacement
+		in.stub(name)
+		str := args[0].(Str)
+		var out []*Term
+		var repl []*Term
+		if name == "strings.ToValidUTF8" {
+			repl = args[1].(Str).b
+		}
+		valid, inRun := true, false
+		for i := 0; i < len(str.b); {
+			if in.ex.decide(Bin("bvult", str.b[i], C(8, 0x80))) {
+				out = append(out, str.b[i])
+				i, inRun = i+1, false
+				continue
+			}
+			_, sz := in.decodeRuneSym(str.b[i:])
+			if sz == 1 {
+				valid = false
+				if !inRun {
+					out = append(out, repl...)
+				}
+				i, inRun = i+1, true
+				continue
+			}
+			out = append(out, str.b[i:i+sz]...)
+			i, inRun = i+sz, false
+		}
+		if name == "unicode/utf8.ValidString" {
+			return B(valid), true
+		}
+		return Str{b: out}, true
 	case "strings.TrimSpace", "strings.TrimLeft", "strings.TrimRight", "strings.Trim":
 		// ASCII white space (for Trim*: the cutset must be concrete ASCII); forks on the bytes at both ends
 		in.stub(name)
